@@ -79,6 +79,15 @@ def check(ctx):
     from .C23 import stage_output_name
 
     stage_output_name(ctx)
+    # ---------------- expression-engine linspace: block i starts where block i-1 started + step * (its length)
+    ls_ = ctx.model.module("dask/array/_array_expr/_creation.py").func("Linspace._layer")
+    ok = bool(find("blockstart = blockstart + self.step * bs", ls_)) and not find("blockstart = blockstop + M_x", ls_)
+    ctx.ob("ABS.linspace.tiling.expr", ls_, "Linspace._layer: blockstart advances by step * block length (independent of the endpoint convention)", ok, "" if ok else "with endpoint=False the last value of a block is not one step before the next block's first: every later block is shifted")
+    # ---------------- expression-engine partial reductions: the token includes the fan-in per axis, not only the axes
+    pr_ = ctx.model.module("dask/array/_array_expr/_reductions.py").func("PartialReduce.__dask_tokenize__")
+    tk = [c for c in calls(pr_, "_tokenize_deterministic")]
+    ok = len(tk) == 1 and [unparse(a) for a in tk[0].args] == ["self.func", "self.array", "self.split_every", "self.keepdims", "self.dtype"]
+    ctx.ob("INJ.partial-reduce.token", pr_, "PartialReduce token = (func, array, split_every as given {axis: fan-in}, keepdims, dtype)", ok, "" if ok else "two tree levels with different fan-in share a name: a later reduction re-uses the first level of an earlier one and aggregates the wrong groups")
 
 
 VARIANTS = [
